@@ -1183,6 +1183,8 @@ def view_cases(draw, dense: bool):
         "qgrid": qg, "qaxes": draw(st.sampled_from(["world", "cube", "cube_corners", "grid", None])),
         "via": draw(st.sampled_from(["points", "transformer"])),
         "gsize": draw(st.lists(st.integers(2, 9 if D == 2 else 6), min_size=D, max_size=D)),
+        # Module.eval(): the training flag is not part of the map (inference with a trained / loaded transformation)
+        "eval_mode": draw(st.booleans()),
     }
     return case
 
@@ -1248,7 +1250,9 @@ def run_views(case, dense: bool):
     g, spec = case["grid"], case["t"]
     grid = make_grid(g)
     t, r = build_any(spec, grid, g)
-    return check_views(case, dense, t, r, g, spec)
+    if case.get("eval_mode"):
+        t.eval()
+    return check_views(case, dense, t, r, g, spec, extra_labels=[f"mode={'eval' if case.get('eval_mode') else 'train'}"])
 
 
 def check_views(case, dense: bool, t, r, g: dict, spec: dict, extra_labels=()):
